@@ -188,7 +188,8 @@ def run_case(case):
     for vec in itertools.product((0, 1), repeat=5):
         settings = " ".join(f"{MKEYS[i]}: {MODES[MKEYS[i]][vec[i]]}" for i in range(5))
         text = f"~ {settings} ~ ${path}[*]{prog}"
-        obs[vec] = run.run_csvpath(text)
+        # the standard-out printer is registered first and an extra printer after it (both orders of registration occur in practice)
+        obs[vec] = run.run_csvpath(text, print_default=(pi % 2 == 0))
     states = []
     nonblank = [r for r in rows if r]
     split = False
